@@ -46,7 +46,7 @@ _RE_COV = re.compile(r"^<(\w+) line \d+, col \d+ to line \d+, col \d+ of module 
 
 def run_tlc(module, cfg=None, env=None, workers=16, timeout=600, simulate=None,
             depth=None, coverage=False, extra=(), heap="6g", seed=None, dfs=False,
-            keep_dir=None):
+            keep_dir=None, cwd=None, libs=()):
     """Run TLC on specs/<module>.tla with specs/<cfg>. Returns TLCResult."""
     res = TLCResult()
     meta = tempfile.mkdtemp(prefix="tlc_meta_")
@@ -54,8 +54,11 @@ def run_tlc(module, cfg=None, env=None, workers=16, timeout=600, simulate=None,
     cmd = ["java", "-Xmx" + heap, "-XX:+UseParallelGC", "-XX:ParallelGCThreads=4"]
     if dfs:
         cmd.append("-Dtlc2.tool.queue.IStateQueue=StateDeque")
+    liblist = list(libs)
     if env and env.get("QA_TLA_LIBRARY"):
-        cmd.append("-DTLA-Library=" + env["QA_TLA_LIBRARY"])
+        liblist.append(env["QA_TLA_LIBRARY"])
+    if liblist:
+        cmd.append("-DTLA-Library=" + os.pathsep.join(liblist))
     cmd += ["-cp", JAR, "tlc2.TLC", "-workers", str(workers), "-metadir", meta,
             "-noGenerateSpecTE", "-config", cfg]
     if simulate:
@@ -75,7 +78,7 @@ def run_tlc(module, cfg=None, env=None, workers=16, timeout=600, simulate=None,
     res.cmd = " ".join(cmd[cmd.index("tlc2.TLC"):])
     t0 = time.time()
     try:
-        p = subprocess.run(cmd, cwd=SPECS, env=e, stdout=subprocess.PIPE,
+        p = subprocess.run(cmd, cwd=cwd or SPECS, env=e, stdout=subprocess.PIPE,
                            stderr=subprocess.STDOUT, timeout=timeout, text=True,
                            errors="replace")
         out = p.stdout
